@@ -11,16 +11,19 @@ for d in sorted(glob.glob("/verif/seeded/C*-*")):
     m = json.load(open(mp))
     det = m.get("detected_by", {})
     caught = [c for c, r in det.items() if r.get("caught")]
+    obsolete = m.get("obsolete")
     sigs = []
     for c in caught:
         sigs += [s.replace("sig=", "").split(" cases=")[0] for s in det[c].get("sigs", [])[:2]]
     rows.append((m.get("seed_id", os.path.basename(d)), m["property"], m.get("summary", "")[:110].replace("|", "/"),
-                 m.get("needs", "")[:120].replace("|", "/"), ", ".join(caught) if caught else "**missed**",
+                 m.get("needs", "")[:120].replace("|", "/"), ("obsolete after a fix: commit (" + ", ".join(caught or ["caught before the fix"]) + ")") if obsolete else (", ".join(caught) if caught else "**missed**"),
                  "; ".join(sigs)[:160].replace("|", "/")))
 print("| seed | property | change | needs | caught by (quick) | first signatures |")
 print("|---|---|---|---|---|---|")
 for r in rows:
     print("| " + " | ".join(r) + " |")
 n = len(rows)
-c = sum(1 for r in rows if not r[4].startswith("**"))
-print(f"\n{c} of {n} validated seeded changes are caught by the quick tier of at least one check.")
+c = sum(1 for r in rows if not r[4].startswith("**") and not r[4].startswith("obsolete"))
+o = sum(1 for r in rows if r[4].startswith("obsolete"))
+print(f"\n{c} of {n - o} seeded changes that apply to the current /repo are caught by the quick tier of at least one check; "
+      f"{o} became obsolete when the genuine defect they relied on was repaired (they were caught before that).")
